@@ -40,7 +40,7 @@ def gen_num(rng, lo, hi, digits=None):
 
 def gen_hms(rng, maxh, allow_sign=True):
     s = b''
-    if allow_sign and rng.random() < 0.3: s += rng.choice([b'+', b'-'])
+    if allow_sign and rng.random() < 0.3: s += rng.choice([b'+', b'-', b'+', b'-', b'+-', b'-+', b'--', b'++'])
     s += gen_num(rng, 0, maxh)
     if rng.random() < 0.4:
         s += b':' + gen_num(rng, 0, 59)
